@@ -17,7 +17,9 @@ const (
 	kILLEGAL tok = iota
 )
 
-var eof = rune(0)
+// eof is the sentinel returned by the scanner at the end of the input. It is not a valid
+// rune, so that a NUL character in the input is not mistaken for the end of the input.
+var eof = rune(-1)
 
 // TokenPos is a pair of coordinate to identify start of token.
 type TokenPos struct {
